@@ -18,8 +18,11 @@ PrioOf(f) == CASE f = "P1" -> <<3, 0, 0, 200>> [] f = "P2" -> <<5, 1, 3, 100>> [
 
 HeaderFrames == {"H1", "H2", "H3"}
 \* pseudo-header order of the block; H2 carries a priority (exclusive, dep 0, weight byte 255); H3 is split over CONTINUATION
+\* and has the PRIORITY flag set with all-zero priority fields (not exclusive, dep 0, weight byte 0): flagged is what counts,
+\* not the values
 OrderOf(f) == CASE f = "H1" -> <<"m", "a", "s", "p">> [] f = "H2" -> <<"m", "p", "a", "s">> [] f = "H3" -> <<"m", "s", "p", "a">>
-HasPrio(f) == f = "H2"
+HasPrio(f) == f \in {"H2", "H3"}
+HdrPrio(f, sid) == IF f = "H2" THEN <<sid, 1, 0, 255>> ELSE <<sid, 0, 0, 0>>
 
 
 \* ---------------------------------------------------------------- Marshal, as the code prints it
